@@ -1280,7 +1280,7 @@ class TcpServerStack(RemoteStack, IpStack):
         pkt, ca = self.txPkts.popleft()
 
         try:
-            self.handler.transmitIx(self, pkt.packed, ca)
+            self.handler.transmitIx(pkt.packed, ca)
         except ValueError as ex:
             console.profuse("{0}: Error sending to {1}\n{2}\n".format(self.name,
                                                                       ca,
@@ -1350,7 +1350,7 @@ class TcpServerStack(RemoteStack, IpStack):
                 continue
 
             if ca not in self.haRemotes:
-                remote = IpRemoteDevice(stack=self, ha=ca)
+                remote = devicing.IpRemoteDevice(stack=self, ha=ca)
                 self.addRemote(remote)
 
             if ix.timeout > 0.0 and ix.timer.expired:
